@@ -138,6 +138,9 @@ func runA(r *vx.Run, e *bcx.Env, ltTopic string, txCount int64, nh int, miner, h
 		cls = "loop-stopped"
 	}
 	r.Seen("distinct", fmt.Sprintf("A txCount=%d hashes=%d miner=%v %s", txCount, nh, miner, cls))
+	if first != second && nh > 0 {
+		r.SampleN(3, kase)
+	}
 	if len(res.Panics) > 0 {
 		first := res.Panics[0]
 		site := "?"
@@ -406,6 +409,7 @@ func partC(r *vx.Run) {
 				r.Count("transitions", 2)
 				r.Seen("states", "C"+lastName)
 				r.Seen("distinct", "C "+strings.SplitN(lastName, "[", 2)[0]+" survived")
+				r.SampleN(6, map[string]interface{}{"part": "C", "case": lastName})
 			case "ALIVE":
 				alive = true
 			case "STUCK":
